@@ -137,6 +137,7 @@ func linkCorr(c *Ctx) {
 			cases = append(cases, t)
 			c.Res.CaseInputs = appendCase(c.Res.CaseInputs, "mismatch_link", src)
 			c.Res.CaseInputs = appendCase(c.Res.CaseInputs, "mismatch_seg", src)
+			c.Res.CaseInputs = appendCase(c.Res.CaseInputs, "mismatch_order", src)
 			c.Res.Traces++
 		}
 	}
@@ -150,6 +151,7 @@ func linkCorr(c *Ctx) {
 	c.caseSB.WriteString("Definition lcases : list lcase := [\n" + strings.Join(cases, ";\n") + "].\n")
 	c.caseSB.WriteString("Definition mismatch_link := Eval vm_compute in bad_lcases lcases.\nPrint mismatch_link.\n")
 	c.caseSB.WriteString("Definition mismatch_seg := Eval vm_compute in bad_seg lcases.\nPrint mismatch_seg.\n")
+	c.caseSB.WriteString("Definition mismatch_order := Eval vm_compute in bad_order lcases.\nPrint mismatch_order.\n")
 }
 
 func init() { corrs["LINK"] = linkCorr }
